@@ -14,12 +14,23 @@ real_t _pearson_corr(const arr_real& x, const arr_real& y) noexcept {
     real_t sum_xy = 0;
     real_t sqsum_x = 0;
     real_t sqsum_y = 0;
+    //the sums are taken over centred data: on the raw values the differences below cancel for data with an offset
+    real_t mean_x = 0;
+    real_t mean_y = 0;
     for (int i = 0; i < n; i++) {
-        sum_x += x[i];
-        sum_y += y[i];
-        sum_xy += x[i] * y[i];
-        sqsum_x += x[i] * x[i];
-        sqsum_y += y[i] * y[i];
+        mean_x += x[i];
+        mean_y += y[i];
+    }
+    mean_x /= n;
+    mean_y /= n;
+    for (int i = 0; i < n; i++) {
+        const real_t dx = x[i] - mean_x;
+        const real_t dy = y[i] - mean_y;
+        sum_x += dx;
+        sum_y += dy;
+        sum_xy += dx * dy;
+        sqsum_x += dx * dx;
+        sqsum_y += dy * dy;
     }
     sum_xy *= n;
     sqsum_x *= n;
